@@ -61,7 +61,41 @@ def write_replay(pid, viol):
   path = os.path.join(d, '%s.json' % h)
   with open(path, 'w') as f:
     json.dump({'property': pid, 'violation': viol}, f, indent=1, default=str)
+  # a plain test that replays the one failing case without the explorer / runner
+  with open(os.path.join(d, 'test_replay_%s.py' % h), 'w') as f:
+    f.write(REPLAY_TEST % {'pid': pid, 'path': path, 'msg': repr(viol.get('msg', ''))[:3000]})
   return path
+
+
+REPLAY_TEST = '''"""Stand-alone replay of one violation of %(pid)s (no explorer, no worker pool).
+run:  PYTHONPATH=/repo:/verif /venv/bin/python -m pytest -q <this file>   (or simply execute it)
+reported as: %(msg)s
+"""
+import json
+import logging
+import sys
+import warnings
+
+sys.path[:0] = ['/repo', '/verif']
+
+
+def test_replay():
+  from mc import worker
+  import importlib
+  logging.disable(logging.CRITICAL)
+  warnings.simplefilter('ignore')
+  prop = importlib.import_module('mc.props.%(pid)s'.lower())
+  if hasattr(prop, 'setup'):
+    prop.setup('quick', 0)
+  item = worker.tuple_deep(json.load(open(%(path)r))['violation']['replay']['item'])
+  res = prop.check(item)
+  assert not res.get('viol'), [v['msg'] for v in res['viol']]
+
+
+if __name__ == '__main__':
+  test_replay()
+  print('no violation on this tree')
+'''
 
 
 def main(argv=None):
